@@ -31,7 +31,7 @@ BENIGN = {  # benign mutant -> checks that must stay silent
     # contexts longer than 255 bytes before the challenge is computed, which makes the seed behaviour-preserving: it must now be silent
     "seed:C08.2": ["C09", "C08"],
 }
-WORKERS = 4
+WORKERS = 6
 
 
 def sh(*a, **k):
@@ -53,6 +53,10 @@ def main():
     for name, checks in BENIGN.items():
         if name.startswith("seed:"):
             jobs.append(("benign " + name, "%s/seeded/%s/patch.diff" % (V, name[5:]), checks, False))
+    # behaviour-preserving maintenance commits written by independent agents (DESIGN 10.5): every listed check must stay silent
+    b7 = json.load(open(V + "/selftest/benign7/index.json"))
+    for name, checks in sorted(b7.items()):
+        jobs.append(("benign7 " + name, "%s/selftest/benign7/%s.diff" % (V, name), checks, False))
     for fn in sorted(os.listdir(V + "/selftest/mutants")):
         name = fn[:-5]
         if name in BENIGN:
